@@ -572,4 +572,16 @@ theorem gridCellContent_congr (ex ey ez : Nat) (hpos : 0 < ex ∨ 0 < ey ∨ 0 <
   exact h _ (corner_inShape_norm g2.kind ex ey ez c hpos δ hδ)
 
 
+theorem unflatten_length (shape : List Nat) (c : Nat) : (unflatten shape c).length = shape.length := by
+  induction shape generalizing c with
+  | nil => rfl
+  | cons n ns ih => simp [unflatten, ih]
+
+theorem expand_length (ext loc : List Nat) : (expand ext loc).length = ext.length := by
+  induction ext generalizing loc with
+  | nil => rfl
+  | cons e es ih =>
+    simp only [expand]
+    split <;> simp [ih]
+
 end Fc
